@@ -32,14 +32,18 @@ def repo_hash():
 def cfg_parts(cfgname):
     """cfgname: <base>[@<frontend>][:p<policy>] e.g. back, mp11_fct, back:p2, back@basic, mp11@row2:p1"""
     base, _, rest = cfgname.partition(":")
-    base = base.partition("@")[0]
+    base = base.partition("@")[0].replace("+circ", "")
     pol = int(rest[1:]) if rest.startswith("p") else 0
     be, fct, traits = msmgen.CFGS[base]
     return base, be, fct, traits, pol
 
 def frontend_of(cfgname):
-    fe = cfgname.partition(":")[0].partition("@")[2]
+    fe = cfgname.partition(":")[0].partition("@")[2].replace("+circ", "")
     return fe or "functor"
+
+def is_circ(cfgname):
+    """<base>+circ: the message queue is a boost::circular_buffer of sufficient capacity (back / back11 only)"""
+    return "+circ" in cfgname
 
 def blank_obs(blocks):
     """row2 behaviours that are members of a state do not see the machine: the ids they would observe are not compared"""
@@ -64,7 +68,9 @@ def build_binary(md, cfgname, extra_flags=()):
         open(cpp, "w").write(src)
         t0 = time.time()
         cmd = [CXX] + CXXFLAGS + list(extra_flags) + ["-I", os.path.join(REPO, "include"), "-I", HARNESS,
-               "-DH_CFG=%s" % traits, "-DH_CFG_%s=1" % base, cpp, "-o", os.path.join(tmpd, "case")]
+               "-DH_CFG=%s" % (traits + ("Circ" if is_circ(cfgname) else "")), "-DH_CFG_%s=1" % base, cpp, "-o", os.path.join(tmpd, "case")]
+        if is_circ(cfgname):
+            cmd.insert(1, "-DH_CIRC=1")
         if "-DH_SERIALIZE" in extra_flags:
             cmd.append("-lboost_serialization")
         r = subprocess.run(cmd, capture_output=True, text=True)
